@@ -400,6 +400,14 @@ fn graph_renumbered<Ty: EdgeType, Ix: IndexType>(a: &AGraph, salt: u64) -> (Grap
         d.push(g.add_node(usize::MAX));
     }
     let ids: Vec<NodeIndex<Ix>> = (0..a.n).map(|i| g.add_node(i)).collect();
+    if salt % 4 == 3 && a.n > 0 {
+        // an earlier generation of edges, wiped by clear_edges before the real ones are added
+        for (k, &(x, y, _)) in a.edges.iter().enumerate().take(6) {
+            g.add_edge(ids[y], ids[x], -2);
+            g.add_edge(ids[0], ids[(x + k) % a.n], -3);
+        }
+        g.clear_edges();
+    }
     for (k, &(x, y, t)) in a.edges.iter().enumerate() {
         if decoys > 0 && k % 3 == 0 {
             g.add_edge(d[0], ids[x], -1);
